@@ -309,8 +309,18 @@ class SimRaw(io.RawIOBase):
         self.fs.n_raw_writes += 1
         return n
 
+    _fd_ok = True
+
     def fileno(self):
-        raise io.UnsupportedOperation('simulated file has no descriptor')
+        if not self._fd_ok:
+            # numpy asks for a descriptor to decide whether it may bypass the file object (ndarray.tofile); it must not
+            raise io.UnsupportedOperation('simulated file has no descriptor')
+        # a token the simulated os.fsync / os.fdatasync accept (every issued raw write is already "on disk" in the crash
+        # model, so syncing is a scheduling point and nothing else)
+        return 100000 + (__import__("zlib").crc32(self.path.encode()) % 100000)
+
+    def isatty(self):
+        return False
 
 
 class _SimOSPath:
@@ -386,7 +396,13 @@ class SimOS:
         return self._fs.rmdir(path)
 
     def fsync(self, fd):
+        self._fs._seam('fs.fsync', str(fd) if not isinstance(fd, int) else '')
         return None
+
+    fdatasync = fsync
+
+    def sync(self):
+        self._fs._seam('fs.fsync', '')
 
     def fspath(self, p):
         return __import__('os').fspath(p)
@@ -453,6 +469,32 @@ class SimOS:
         raise HarnessError('os.%s is not simulated' % name)
 
 
+def _simraw_of(f):
+    for _ in range(4):
+        if isinstance(f, SimRaw):
+            return f
+        f = getattr(f, 'buffer', None) or getattr(f, 'raw', None)
+        if f is None:
+            return None
+    return None
+
+
+class _NoDescriptor:
+    """While numpy writes through a simulated file object, that object has no descriptor numpy could bypass it with."""
+
+    def __init__(self, f):
+        self.raw = _simraw_of(f)
+
+    def __enter__(self):
+        if self.raw is not None:
+            self.raw._fd_ok = False
+
+    def __exit__(self, *exc):
+        if self.raw is not None:
+            self.raw._fd_ok = True
+        return False
+
+
 class SimNP:
     """`np` stand-in: everything is real numpy, except that save/savez/load go to the simulated FS
     (the bytes are produced and parsed by the real numpy / zipfile code)."""
@@ -475,15 +517,21 @@ class SimNP:
     def save(self, file, arr, *a, **kw):
         p = self._path(file, '.npy')
         if p is None:
-            return real_np.save(file, arr, *a, **kw)
+            with _NoDescriptor(file):
+                return real_np.save(file, arr, *a, **kw)
         with self._fs.open(p, 'wb') as f:
-            real_np.save(f, arr, *a, **kw)
+            with _NoDescriptor(f):
+                real_np.save(f, arr, *a, **kw)
 
     def _savez(self, fn, file, args, kwds):
         p = self._path(file, '.npz')
         if p is None:
-            return fn(file, *args, **kwds)
+            with _NoDescriptor(file):
+                return fn(file, *args, **kwds)
         f = self._fs.open(p, 'w+b')        # zipfile opens the path with 'w+b'
+        raw = _simraw_of(f)
+        if raw is not None:
+            raw._fd_ok = False
         try:
             fn(f, *args, **kwds)
         except SimKilled:
@@ -509,9 +557,11 @@ class SimNP:
     def savetxt(self, fname, X, *a, **kw):
         p = self._path(fname, '')
         if p is None:
-            return real_np.savetxt(fname, X, *a, **kw)
+            with _NoDescriptor(fname):
+                return real_np.savetxt(fname, X, *a, **kw)
         with self._fs.open(p, 'w') as f:
-            real_np.savetxt(f, X, *a, **kw)
+            with _NoDescriptor(f):
+                real_np.savetxt(f, X, *a, **kw)
 
     def loadtxt(self, fname, *a, **kw):
         p = self._path(fname, '')
